@@ -241,3 +241,47 @@ func VH_C19_concurrent() {
 	}
 	vrtReach("joined")
 }
+
+// VH_C19_many_subscribers: an event type with many subscribers (more than any
+// plausible pre-sized buffer): each gets the event exactly once, a type with
+// none delivers nothing, and after half of them left, exactly the others get
+// the next event.
+func VH_C19_many_subscribers() {
+	w := vhNewWorld()
+	n := []int{9, 64, 65, 100}[vrtChoose(4)]
+	pub := w.spawn(w.root, "pub", &vhActor{name: "pub"})
+	es := w.sys.eventStream.(*eventStream)
+	var subs []*Context
+	for i := 0; i < n; i++ {
+		s := w.spawn(w.root, "s"+string(rune('a'+i/26))+string(rune('a'+i%26)), &vhActor{name: "s"})
+		subs = append(subs, s)
+		es.Subscribe(s, vhEvtA{})
+	}
+	es.Publish(pub, vhEvtA{N: 1})
+	for _, s := range subs {
+		vrtAssert(len(w.boxes[s].all) == 1, "publish-delivers-once-to-each-current-subscriber")
+	}
+	es.Publish(pub, vhEvtB{N: 2})
+	for _, s := range subs {
+		vrtAssert(len(w.boxes[s].all) == 1, "publish-delivers-to-nobody-else")
+	}
+	for i, s := range subs {
+		if i%2 == 0 {
+			if i%4 == 0 {
+				es.UnsubscribeAll(s)
+			} else {
+				es.Unsubscribe(s, vhEvtA{})
+			}
+		}
+	}
+	es.Publish(pub, vhEvtA{N: 3})
+	for i, s := range subs {
+		want := 1
+		if i%2 == 1 {
+			want = 2
+		}
+		vrtAssert(len(w.boxes[s].all) == want, "publish-delivers-once-to-each-current-subscriber")
+	}
+	vrtAssert(len(w.boxes[pub].all) == 0, "publish-delivers-to-nobody-else")
+	vrtReach("many-subscribers")
+}
